@@ -604,7 +604,11 @@ fn get_local_offset(date: (i32, u32, u32), time: (u32, u32, u32, u32)) -> Option
   if let Some(naive_date) = NaiveDate::from_ymd_opt(date.0, date.1, date.2) {
     if let Some(naive_time) = NaiveTime::from_hms_nano_opt(time.0, time.1, time.2, time.3) {
       let naive_date_time = NaiveDateTime::new(naive_date, naive_time);
-      return Some(Local.offset_from_utc_datetime(&naive_date_time).local_minus_utc());
+      // the values are a wall clock time in the local time zone, times that do not exist
+      // or are ambiguous in this time zone have no single offset
+      if let LocalResult::Single(offset) = Local.offset_from_local_datetime(&naive_date_time) {
+        return Some(offset.local_minus_utc());
+      }
     }
   }
   None
